@@ -307,4 +307,19 @@ does `DialWithOptions` return?  Without `WithBlock` it returns a lazy connection
 returns exactly if connection errors end the dial. -/
 def gonePeerDialReturns (D : DialParams) (callerBlocks : Bool) : Bool := !callerBlocks || D.dialFailsFast
 
+/-- fact: both streamers' `send` channel is UNBUFFERED (`make(chan *sendErr)`): handing a message to the stream's send loop
+is a rendezvous with that loop -/
+structure StreamerParams where
+  sendUnbuffered : Bool
+  deriving DecidableEq, Repr
+
+def StreamerParams.Good (S : StreamerParams) : Prop := S.sendUnbuffered = true
+instance (S : StreamerParams) : Decidable S.Good := by unfold StreamerParams.Good; exact inferInstance
+
+/-- `Send` issued after the stream has ended (`quit` closed, the send loop gone): of the two arms of its
+`select { <-quit | send <- msg }` only `quit` is ready when the hand-over needs a receiver; with a buffered channel the
+hand-over is ready as well, the runtime may choose it, and the wait for the reply that follows never ends.
+`true` = every such `Send` returns ("broker closed"). -/
+def sendAfterEndReturns (S : StreamerParams) : Bool := S.sendUnbuffered
+
 end GoPlugin.GrpcBroker
